@@ -676,7 +676,7 @@ def build_text():
     header = ("/-\n  GENERATED by harness/extract.py from /repo on every check run. Do not edit.\n"
               "  Sections marked DOWNGRADED fall back to Generated/Fallback.lean (see DESIGN.md §3.1).\n-/\n"
               "import Generated.Types\nimport Generated.Fallback\n"
-              "set_option maxRecDepth 4000\n"
+              "set_option maxRecDepth 4000\nset_option linter.unusedVariables false\n"
               "namespace Webauthn.Generated\n\n")
     text = header + "\n".join(S.parts) + "\nend Webauthn.Generated\n"
     return text, S.downgrades
@@ -704,7 +704,7 @@ def make_fallback():
     body = text.split("namespace Webauthn.Generated\n", 1)[1].rsplit("end Webauthn.Generated", 1)[0]
     out = ("/-\n  Hand-reviewed snapshot of the tables of the pinned /repo commit; used only when a section\n"
            "  of harness/extract.py cannot be regenerated (DESIGN.md §3.1, downgrade).\n-/\n"
-           "import Generated.Types\nset_option maxRecDepth 4000\nnamespace Webauthn.Generated.Fallback\n"
+           "import Generated.Types\nset_option maxRecDepth 4000\nset_option linter.unusedVariables false\nnamespace Webauthn.Generated.Fallback\n"
            + body + "end Webauthn.Generated.Fallback\n")
     with open(os.path.join(common.LEAN, "Generated", "Fallback.lean"), "w") as f:
         f.write(out)
